@@ -1,5 +1,6 @@
 import CkbVerif.Lemmas.MoleculeAccess
 import CkbVerif.Lemmas.Compact
+import CkbVerif.Lemmas.Frame
 import CkbVerif.Model.Frame
 import CkbVerif.Gen.Schemas
 /-!
@@ -329,6 +330,47 @@ theorem reconstruct_prefilled_at_index (b : Block) (hf : fits cb.prefilled cb.sh
 
 example : fits [(0, (⟨1, 1⟩ : Tx)), (2, ⟨3, 3⟩)] 2 0 := by simp [fits]
 
+/-- what `CompactBlockVerifier::verify` accepts can always be laid out: first prefilled index 0,
+last index below `txs_len`, strictly increasing indexes imply that every prefilled index is at or
+after the number of transactions pushed so far and that enough short ids are left for the gap
+before it.  (This was the hypothesis `fits` of `reconstruct_prefilled_at_index`.) -/
+theorem cbVerify_implies_fits (hv : cbVerify cb = none) : fits cb.prefilled cb.shortIds.length 0 :=
+  cbVerify_fits cb hv
+
+/-- `reconstruct_prefilled_at_index` without a separate hypothesis: in a block rebuilt from a
+compact block that passed `CompactBlockVerifier`, every prefilled transaction sits at the index it
+declares -/
+theorem reconstruct_prefilled_at_index_verified (b : Block) (hv : cbVerify cb = none)
+    (hr : reconstruct h cb received pool src fromPeer = .block b) (idx : Nat) (t : Tx)
+    (hm : (idx, t) ∈ cb.prefilled) : b.txs[idx]? = some t :=
+  reconstruct_prefilled_at_index h cb received pool src fromPeer b (cbVerify_fits cb hv) hr idx t hm
+
+/-- the `usize` subtraction `index - block_transactions.len()` in the "fill transactions gap" loop
+of `reconstruct_block` never underflows on a compact block accepted by `CompactBlockVerifier`
+(whatever the short ids, received transactions and pool are: the loop does not look at them) -/
+theorem reconstruct_gap_no_underflow (hv : cbVerify cb = none) :
+    (gapsChecked cb.prefilled cb.shortIds 0).isSome = true :=
+  gapsChecked_of_fits _ _ _ (cbVerify_fits cb hv)
+
+/-- … and the strictness of the order check is what this rests on: with `idx0 > idx1` in place of
+`idx0 >= idx1` (equal neighbours tolerated) a compact block with two prefilled transactions at
+index 0 passes every other check, and the second subtraction is `0 - 1` -/
+theorem loose_order_check_underflows :
+    ∃ cb : CB, cbVerifyLoose cb = none ∧ gapsChecked cb.prefilled cb.shortIds 0 = none ∧
+      cbVerify cb = some .outOfOrder :=
+  ⟨CB.mk default [5] [(0, ⟨1, 1⟩), (1, ⟨2, 2⟩), (1, ⟨3, 3⟩)] [] [] none, by decide⟩
+
+example : cbVerify (CB.mk default [5, 6] [(0, ⟨1, 1⟩), (2, ⟨2, 2⟩)] [] [] none) = none ∧
+    gapsChecked [(0, (⟨1, 1⟩ : Tx)), (2, ⟨2, 2⟩)] [5, 6] 0 = some [0, 1] := by decide
+
+/-- whatever the prefilled indexes are, the body layout uses every listed short id exactly once, in
+the listed order, and every prefilled transaction exactly once, in the listed order: no short id is
+swallowed or repeated by the gap filling -/
+theorem layout_uses_every_short_id_and_prefilled_once :
+    (layout cb).filterMap Slot.sid? = cb.shortIds ∧
+    (layout cb).filterMap Slot.pre? = cb.prefilled.map (·.2) :=
+  ⟨layoutGo_shorts _ _ _, layoutGo_pres _ _ _⟩
+
 /-- with a collision-free transactions root the result cannot be any other body than the one the
 header commits to: never a different block -/
 theorem reconstruct_forge_free (b : Block) (committed : List Tx)
@@ -413,6 +455,191 @@ theorem compress_threshold (len : Nat) : compressTaken len = true ↔ COMPRESSIO
 
 example : outputLen (decompressDecision [0x80, 0x03, 0x08, 0x61, 0x62, 0x63]) = some 3 := by decide +kernel
 example : outputLen (decompressDecision [0x80, 0x81, 0x80, 0x80, 0x04, 0x00]) = none := by decide +kernel
+
+/-! ### the production path: `LengthDelimitedCodecWithCompress` -/
+
+/-- The production decoder takes the same decision as the stand-alone helper `decompress` on every
+frame of at least two bytes (the two are separate copies of the same tests in
+`network/src/compress.rs`; shorter frames are refused by the codec only). -/
+theorem codec_decision_agrees_with_helper (d : Frame.Bytes) (hd : DECODE_MIN_FRAME_LEN ≤ d.length) :
+    (match frameItem d with
+     | none => Decision.err
+     | some (.raw p) => Decision.raw p
+     | some (.snappy n _) => Decision.snappy n) = decompressDecision d := by
+  unfold frameItem decompressDecision
+  have : ¬ d.length < DECODE_MIN_FRAME_LEN := by omega
+  simp only [this, if_false]
+  cases d with
+  | nil => rfl
+  | cons b rest =>
+    simp only
+    cases hf : compressFlag b with
+    | false => simp
+    | true =>
+      simp only [if_true]
+      cases hl : decompressLen rest with
+      | none => rfl
+      | some n =>
+        simp only
+        by_cases hn : n > MAX_UNCOMPRESSED_LEN <;> simp [hn]
+
+/-- `decode_output_bounded`: whatever chunks of whatever bytes a peer sends on a connection, every
+buffer the decoder hands to the protocol handler is at most `MAX_UNCOMPRESSED_LEN` long when it
+came out of the snappy decoder (whatever that decoder wrote: the buffer is the `zeroed(len)` one),
+and shorter than `max_frame_length` when it was sent uncompressed; and the decoder never waits for
+(reserves buffer space for) a frame longer than `max_frame_length`. -/
+theorem decode_output_bounded (snap : Frame.Bytes → Option Frame.Bytes) (cfg : Cfg) (chunks : List Frame.Bytes) :
+    (∀ i ∈ (feedAll cfg Conn.init chunks).items, ∀ out, finish snap i = some out →
+      out.length ≤ MAX_UNCOMPRESSED_LEN ∨ out.length + 1 ≤ cfg.maxFrame) ∧
+    (∀ n buf, (feedAll cfg Conn.init chunks).state = .pending (.data n) buf → n ≤ cfg.maxFrame) := by
+  have hok := feedAll_ok cfg Conn.init chunks ⟨by simp [Conn.init], by simp [Conn.init, endOk, stOk]⟩
+  refine ⟨fun i hi out ho => finish_bounded snap cfg i out (hok.1 i hi) ho, ?_⟩
+  intro n buf hs
+  have := hok.2
+  rw [hs] at this
+  exact this
+
+/-- for the sync and relay protocols as configured (`max_frame_length` 2 MiB / 4 MiB, both below the
+8 MiB bound) nothing longer than `MAX_UNCOMPRESSED_LEN` ever reaches `Synchronizer::received` /
+`Relayer::received` -/
+theorem decode_output_bounded_sync_relay (snap : Frame.Bytes → Option Frame.Bytes) (cfg : Cfg)
+    (hc : cfg.maxFrame = SYNC_MAX_FRAME_LENGTH ∨ cfg.maxFrame = RELAY_MAX_FRAME_LENGTH) (chunks : List Frame.Bytes)
+    (i : Item) (hi : i ∈ (feedAll cfg Conn.init chunks).items) (out : Frame.Bytes) (ho : finish snap i = some out) :
+    out.length ≤ MAX_UNCOMPRESSED_LEN := by
+  have := (decode_output_bounded snap cfg chunks).1 i hi out ho
+  have h1 : SYNC_MAX_FRAME_LENGTH ≤ MAX_UNCOMPRESSED_LEN := by decide
+  have h2 : RELAY_MAX_FRAME_LENGTH ≤ MAX_UNCOMPRESSED_LEN := by decide
+  rcases hc with hc | hc <;> omega
+
+/-- `decode_chunking_independent`: the decoder is stateful (`Head | Data(n)` plus the unconsumed
+buffer), but the sequence of frames delivered — and whether and where the stream fails — depends
+only on the byte stream, not on how the transport cuts it into reads. -/
+theorem decode_chunking_independent (cfg : Cfg) (chunks1 chunks2 : List Frame.Bytes)
+    (h : chunks1.flatten = chunks2.flatten) :
+    feedAll cfg Conn.init chunks1 = feedAll cfg Conn.init chunks2 := by
+  have key : ∀ chunks : List Frame.Bytes, feedAll cfg Conn.init chunks = feed cfg Conn.init chunks.flatten := by
+    intro chunks
+    rcases feedAll_eq_feed_flatten cfg Conn.init chunks with h1 | ⟨h1, h2⟩
+    · exact h1
+    · subst h1
+      rw [h2]
+      exact (feed_nil_init cfg).symm
+  rw [key, key, h]
+
+/-- `codec_roundtrip`: what `encode` writes for a non-empty payload, `decode` gives back — with
+compression enabled or not, whatever follows in the buffer, leaving the decoder in its initial
+state.  Hypotheses: `snap (comp d) = some d` (snappy decompress ∘ compress = id) and the snappy
+header of `comp d` announces `d.length`; the payload is at most `MAX_UNCOMPRESSED_LEN` long (a
+longer one that compresses below `max_frame_length` is sent and then refused by the receiver);
+`max_frame_length` fits the 4-byte length field.  `encode` itself succeeds for every payload
+shorter than `max_frame_length` (`encode_accepts`). -/
+theorem codec_roundtrip (comp : Frame.Bytes → Frame.Bytes) (snap : Frame.Bytes → Option Frame.Bytes)
+    (hsnap : ∀ d, snap (comp d) = some d) (hhdr : ∀ d, decompressLen (comp d) = some d.length)
+    (cfg : Cfg) (hmax : cfg.maxFrame < 4294967296) (data w rest : Frame.Bytes)
+    (hne : data ≠ []) (hlen : data.length ≤ MAX_UNCOMPRESSED_LEN) (he : Frame.encode comp cfg data = some w) :
+    ∃ i, decodeCall cfg .head (w ++ rest) = (.item i, .head, rest) ∧ finish snap i = some data := by
+  -- what `process` wrote: head, flag, body
+  have hproc : ∀ (body : Frame.Bytes) (flag : Nat) (i : Item), encProcess cfg body flag = some w →
+      frameItem (UInt8.ofNat flag :: body) = some i → decodeCall cfg .head (w ++ rest) = (.item i, .head, rest) := by
+    intro body flag i hp hf
+    unfold encProcess at hp
+    split at hp
+    · simp at hp
+    · rename_i hle
+      simp only [Option.some.injEq] at hp
+      subst hp
+      have hb : be32 (be32enc (body.length + 1) ++ (UInt8.ofNat flag :: body ++ rest)) = body.length + 1 :=
+        be32_enc _ _ (by omega)
+      have hl : ldDecode cfg.maxFrame .head (be32enc (body.length + 1) ++ UInt8.ofNat flag :: body ++ rest) =
+          (.frame (UInt8.ofNat flag :: body), .head, rest) := by
+        have e : be32enc (body.length + 1) ++ UInt8.ofNat flag :: body ++ rest =
+            be32enc (body.length + 1) ++ (UInt8.ofNat flag :: body ++ rest) := by simp
+        rw [e]
+        have hlen4 : (be32enc (body.length + 1)).length = HEAD_LEN := rfl
+        have hnl : ¬ (be32enc (body.length + 1) ++ (UInt8.ofNat flag :: body ++ rest)).length < HEAD_LEN := by
+          simp only [List.length_append, hlen4]; omega
+        have hnm : ¬ body.length + 1 > cfg.maxFrame := by omega
+        simp only [ldDecode, hnl, if_false, hb, hnm]
+        rw [List.drop_append_of_le_length (by rw [hlen4]; exact Nat.le_refl _), ← hlen4, List.drop_length, List.nil_append]
+        have hnl2 : ¬ (UInt8.ofNat flag :: body ++ rest).length < body.length + 1 := by
+          simp only [List.cons_append, List.length_cons, List.length_append]; omega
+        simp only [ldData, hnl2, if_false]
+        have e2 : UInt8.ofNat flag :: body ++ rest = (UInt8.ofNat flag :: body) ++ rest := rfl
+        have e3 : body.length + 1 = (UInt8.ofNat flag :: body).length := rfl
+        rw [e2, e3, List.take_left', List.drop_left']
+        · rfl
+        · rfl
+      have hemp : (be32enc (body.length + 1) ++ UInt8.ofNat flag :: body ++ rest).isEmpty = false := by simp [be32enc]
+      unfold decodeCall
+      rw [hemp, hl]
+      simp [hf]
+  have hraw : ∀ body : Frame.Bytes, body ≠ [] → frameItem (UInt8.ofNat UNCOMPRESS_FLAG :: body) = some (.raw body) := by
+    intro body hb
+    have : ¬ (UInt8.ofNat UNCOMPRESS_FLAG :: body).length < DECODE_MIN_FRAME_LEN := by
+      cases body with
+      | nil => exact absurd rfl hb
+      | cons x xs => simp [DECODE_MIN_FRAME_LEN]
+    have h2 : DECODE_MIN_FRAME_LEN ≤ body.length + 1 := by simpa using this
+    have hflag : compressFlag (UInt8.ofNat UNCOMPRESS_FLAG) = false := by decide
+    simp [frameItem, h2, hflag]
+  unfold Frame.encode at he
+  split at he
+  · simp only at he
+    split at he
+    · exact ⟨.raw data, hproc data _ _ he (hraw data hne), rfl⟩
+    · rename_i hcond hlt
+      refine ⟨.snappy data.length (comp data), hproc (comp data) _ _ he ?_, ?_⟩
+      · have hcne : comp data ≠ [] := by
+          intro hc
+          have := hhdr data
+          rw [hc] at this
+          simp only [decompressLen, List.isEmpty_nil, if_true, Option.some.injEq] at this
+          simp only [Bool.and_eq_true, decide_eq_true_eq] at hcond
+          omega
+        have : ¬ (UInt8.ofNat COMPRESS_FLAG :: comp data).length < DECODE_MIN_FRAME_LEN := by
+          cases hcd : comp data with
+          | nil => exact absurd hcd hcne
+          | cons x xs => simp [DECODE_MIN_FRAME_LEN]
+        have h2 : DECODE_MIN_FRAME_LEN ≤ (comp data).length + 1 := by simpa using this
+        have hflag : compressFlag (UInt8.ofNat COMPRESS_FLAG) = true := by decide
+        have hnb : ¬ data.length > MAX_UNCOMPRESSED_LEN := by omega
+        simp [frameItem, h2, hflag, hhdr data, hnb]
+      · simp [finish, hsnap data, fitTo_self]
+  · exact ⟨.raw data, hproc data _ _ he (hraw data hne), rfl⟩
+
+/-- `encode` accepts every payload shorter than `max_frame_length` (the compressed form is only
+chosen when it is strictly shorter) -/
+theorem encode_accepts (comp : Frame.Bytes → Frame.Bytes) (cfg : Cfg) (data : Frame.Bytes)
+    (h : data.length + 1 ≤ cfg.maxFrame) : (Frame.encode comp cfg data).isSome = true := by
+  unfold Frame.encode
+  split
+  · simp only
+    split
+    · have : ¬ data.length + 1 > cfg.maxFrame := by omega
+      simp [encProcess, this]
+    · rename_i hlt
+      have : ¬ (comp data).length + 1 > cfg.maxFrame := by omega
+      simp [encProcess, this]
+  · have : ¬ data.length + 1 > cfg.maxFrame := by omega
+    simp [encProcess, this]
+
+/-- the round trip does NOT hold for the empty payload: `encode` writes the one-byte frame
+`00 00 00 01 00`, which `decode` refuses (`data.len() < 2`).  No CKB protocol message is empty (a
+molecule union is at least four bytes), so this is a property of the codec, not a reachable
+rejection. -/
+theorem codec_roundtrip_fails_on_empty_payload (comp : Frame.Bytes → Frame.Bytes) (c : Bool) :
+    Frame.encode comp ⟨1024, c⟩ [] = some [0, 0, 0, 1, 0] ∧
+    (decodeCall ⟨1024, c⟩ .head [0, 0, 0, 1, 0]).1 matches .err := by
+  cases c <;> exact ⟨by rfl, by decide⟩
+
+/-! non-vacuity: two frames cut into three reads, the second one compressed; a lying header -/
+example : feedAll ⟨2097152, true⟩ Conn.init [[0, 0, 0, 3, 0], [7, 8, 0, 0, 0, 6, 0x80, 3], [8, 0x61, 0x62, 0x63, 0, 0]] =
+    ⟨[.raw [7, 8], .snappy 3 [3, 8, 0x61, 0x62, 0x63]], .pending .head [0, 0]⟩ := by decide +kernel
+example : (feedAll ⟨2097152, true⟩ Conn.init [[0, 0, 0, 7, 0x80, 0x81, 0x80, 0x80, 0x04, 0, 0]]).state matches .err := by
+  decide +kernel
+example : (feedAll ⟨2097152, true⟩ Conn.init [[0, 0x20, 0, 1]]).state matches .err := by decide +kernel
+example : (feedAll ⟨2097152, true⟩ Conn.init [[0, 0x20, 0, 0]]).state matches .pending (.data 2097152) [] := by decide +kernel
+example : Frame.encode (fun d => d) ⟨2097152, true⟩ [9, 9] = some [0, 0, 0, 3, 0, 9, 9] := by decide +kernel
 
 end Frames
 
